@@ -74,11 +74,11 @@ CHECKS = {
             "DESIGN.md section 6 C19"),
     "C18": ("TLA+ OFXGetConfig state machine (user file x FI database x OFX Home x defaults): TLC model check of Precedence/Persist/stores-nothing/uid-stable over run histories + TLC-simulated histories replayed on the real ofxget + stateful trace validation of every run",
             "TLC checks on MC_GetConfig, over all histories of runs, that the reference write rule satisfies Precedence, Persist, DryStoresNothing, NoWriteStoresNothing, UidStable and OtherServersUntouched (and refutes the never-drop rule the library used to have). Behaviours simulated by TLC and seeded random histories (URLs with %, values equal to defaults, lists, booleans, versions; every subset of sources) are replayed on the real argument parser, merge_config, handlers and write_config with modules re-imported per run; the stateful trace specification carries the user file and default CLIENTUID and judges each run's effective settings and the file it leaves.",
-            "Trusted: TLC, the reading of the precedence chain, the independent INI reading of ofxget.cfg, the fakes at OFXClient.post_request / ofxhome.lookup. Account ids containing commas and booleans set back to false are outside what the command line can express. The first --write may introduce the generated default CLIENTUID.",
+            "Trusted: TLC, the reading of the precedence chain, the independent INI reading of ofxget.cfg, the fakes at OFXClient.post_request and at OFX Home (two thirds of the histories run the real ofxhome.lookup over a fake OFX Home serving XML records, the rest fake ofxhome.lookup itself). Account ids containing commas, booleans set back to false and options given as the empty text (\"explicitly nothing\": outranks lower sources, cannot be persisted) are outside what the file can express. The first --write may introduce the generated default CLIENTUID.",
             "DESIGN.md section 6 C18"),
     "C14": ("TLA+ OFXNet exchange machine (clients, hosts, cookie jars, advertised URL): TLC model check of the routing/cookie invariants + TLC-simulated histories replayed against fake servers under urllib's opener + stateful trace validation reading every POST body",
             "TLC checks on MC_Net, over all histories of calls by two clients, NoPostOnDryRun, OnePostPerRequest, ProfileIsAnonymous, ProfileGoesToConfiguredUrl, CredentialsOnlyWhereAllowed, CookieIsolation and CookieReplay. TLC-simulated and seeded histories (request kinds x dry/skip/normal x advertised URL same/different x cookie-setting hosts x up to 3 clients) are executed on real OFXClient instances against fake servers installed below urllib's opener; the stateful trace specification carries the jars and issued cookies, predicts the POSTs of every call (host, cookie value) and reads each POST body itself (OFXFile) to decide the request kind and whose credentials it carries; method and headers are checked per POST.",
-            "Trusted: TLC, the fake transport (only http_open/https_open replaced), the file layers. The urllib transport is the one installed here (requests is absent). Servers always answer a full profile (other server behaviours belong to C15).",
+            "Trusted: TLC, the fake transport (only http_open/https_open replaced), the file layers. The urllib transport is the one installed here (requests is absent). Profiles may leave statement message sets out and may not offer closing statements; the advertised service URL has mixed-case path characters and POSTs are identified by their exact URL (other server behaviours belong to C15).",
             "DESIGN.md section 6 C14"),
     "C15": ("TLA+ ProfileCache protocol with the write variant and cache-key relation DETECTED on the real code: TLC explores 2 clients x server behaviours x crashes x interleavings; counterexamples are replayed on the real code by a step scheduler at the I/O boundary; independent scheduler exploration validated by a property-level stateful trace spec",
             "The harness observes the real request_profile at its I/O boundary (builtins.open / os.replace / post_request wrapped from outside) to detect the write protocol (in place or write-aside-and-rename) and whether two clients with equal ORG/FID but different URLs share a cache file; TLC model-checks the protocol specification instantiated with those constants (2 clients, 1 crash, 3-4 calls, all interleavings; ~1M states) for CacheWholeOrAbsent, CacheNeverVanishes, CacheNeverOlder, SuccessFromOwnServer, AskedWithHeldDate, CacheBelongsToServer, FailureLeavesCache, StartNeverFailsOnCache, and every counterexample (JSON trace) is driven through the real code by the step scheduler. Independently the scheduler explores the real code - behaviour sequences (<= 3 exhaustively, <= 6 sampled) with fresh/restarted clients, a crash after each I/O step followed by further calls, interleavings of two writers, client pairs with equal/different ORG/FID/URL - and every I/O step and result is judged by the property-level trace specification.",
